@@ -105,16 +105,22 @@ def fresh_process_state():
                 pass
 
 
+_hangs_seen = [0]
+
+
 class _Watchdog:
-    """SIGALRM based guard for the (single-threaded) in-process run; 0 disables."""
+    """SIGALRM based guard for the (single-threaded) in-process run; 0 disables.  Runs take milliseconds, so once a
+    run of this process has been cut off by the watchdog the following ones get a tenth of the time: a change that makes
+    a whole family of cases spin must not cost two minutes per case."""
 
     def __init__(self, seconds):
-        self.seconds = seconds
+        self.seconds = seconds if not _hangs_seen[0] else max(5, seconds // (10 if _hangs_seen[0] < 3 else 24))
         self.old = None
 
     def __enter__(self):
         if self.seconds and threading.current_thread() is threading.main_thread():
             def h(signum, frame):
+                _hangs_seen[0] += 1
                 raise fakenet.HarnessHang('wall-clock watchdog (%ds)' % self.seconds)
             self.old = signal.signal(signal.SIGALRM, h)
             signal.setitimer(signal.ITIMER_REAL, self.seconds)
